@@ -92,6 +92,18 @@ def cases(tier):
             for h in histories(tier):
                 yield hist_spec(dt, D, h, 0.3, 60.0, dfn=True)
     yield from simspace.timed(tier)
+    # people who start the run inside a junction that belongs to the duration group (the initial flush spreads them like any initial occupants)
+    import copy
+
+    for spec in simspace.timed(tier):
+        if spec["timed"]["struct"] in ("group_junction", "group_junction2", "group_resjunction") and spec["timed"]["extra"] in (None, 0.3):
+            s2 = copy.deepcopy(spec)
+            for c in s2["comps"]:
+                if c["name"] == "jt":
+                    c.pop("default", None)
+                    c["init"] = 40.0
+            s2["timed"]["jinit"] = 40.0
+            yield s2
 
 
 def group_members(r, pop, gname):
